@@ -20,10 +20,14 @@ fn check(s: &[u8], rep: &mut Report) -> u32 {
     let (w1024, tr) = spec::hash_to_point_traced(s, 1024);
     let (_, tr512) = spec::hash_to_point_traced(s, 512);
     let ss = s.to_vec();
-    let r = monitored(move || (vh::hash_to_point(&ss, 512), vh::hash_to_point(&ss, 1024), vh::hash_to_point(&ss, 512)));
+    // the same input under alternating degrees: 512, 1024, 512, 1024
+    let r = monitored(move || (vh::hash_to_point(&ss, 512), vh::hash_to_point(&ss, 1024), vh::hash_to_point(&ss, 512), vh::hash_to_point(&ss, 1024)));
     match r {
         Err(p) => rep.violation(&format!("panic:hash_to_point@{}", short_loc(&p.location)), format!("input of {} bytes: {}", s.len(), p.message), replay()),
-        Ok((h512, h1024, again)) => {
+        Ok((h512, h1024, again, again1024)) => {
+            if again1024 != h1024 {
+                rep.violation("h2p:nondeterministic", format!("the second call with n = 1024 on the same {}-byte input (after calls with 512, 1024, 512) returns {} coefficients / different values", s.len(), again1024.len()), replay());
+            }
             let a: Vec<i64> = h512.iter().map(|&x| x as i64).collect();
             let b: Vec<i64> = h1024.iter().map(|&x| x as i64).collect();
             if b != w1024 {
